@@ -150,6 +150,54 @@ def ddmin(items: list, fails) -> list:
     return items
 
 
+def translation_gate(chk, translator, out_rel: str, build_targets: list[str], what: str) -> None:
+    """Shared `pre_gate` of the source->Lean translators (C11 has its own, older copy of this logic).
+
+    `translator` is a module with REL_SOURCE, Unsupported, translate(repo) -> (lean text, sha256 of the
+    source), strip_sha(text), write_if_changed(text, path).  The generated file lean/<out_rel> is rewritten
+    from the source text of the tree under test, then `build_targets` (the generated module, the module
+    proving `generated = model`, the property module restating theorems over the generated definitions) are
+    rebuilt.  A rejected source or a proof that stops checking is recorded as a gate problem naming the
+    declaration; the correspondence and oracle suites then look for the failing input."""
+    import hashlib
+    out = LEAN_DIR / out_rel
+    info = {"source": str(REPO / translator.REL_SOURCE), "generated": out_rel}
+    chk.corr.setdefault("source_translation", {})[out_rel] = info
+    msg = f"source translation of {translator.REL_SOURCE} ({what}) no longer matches the model: "
+    try:
+        text, sha = translator.translate(REPO)
+    except translator.Unsupported as e:
+        info["status"] = "translator-failed"
+        chk.gate.setdefault("problems", []).append(
+            msg + f"the translator rejects the source ({e}); the equalities generated = model are unchecked for this tree")
+        return
+    info["source_sha256"] = sha
+    info["translation_sha256"] = hashlib.sha256(translator.strip_sha(text).encode()).hexdigest()
+    info["rewritten"] = translator.write_if_changed(text, out)
+    b = subprocess.run(["lake", "build", *build_targets], cwd=LEAN_DIR, capture_output=True, text=True)
+    if b.returncode == 0:
+        info["status"] = "equal-to-model"
+        return
+    log = b.stdout + b.stderr
+    errs = [ln.strip() for ln in log.splitlines() if re.search(r"\berror\b", ln)]
+    first = errs[0] if errs else (log.strip().splitlines()[-1] if log.strip() else "lake build failed")
+    where = None
+    m = re.search(r"((?:Proofs|Props|Gen)/[\w]+)\.lean:(\d+):", first)
+    if m:
+        f = LEAN_DIR / (m.group(1) + ".lean")
+        if f.exists():
+            for i, ln in enumerate(f.read_text().splitlines(), 1):
+                mm = re.match(r"\s*(?:theorem|def|lemma)\s+([\w.']+)", ln)
+                if mm:
+                    if i > int(m.group(2)):
+                        break
+                    where = mm.group(1)
+    info["status"] = "differs-from-model"
+    info["first_error"] = first[:400]
+    info["broken_declaration"] = where
+    chk.gate.setdefault("problems", []).append(msg + (f"{where} does not check any more: " if where else "") + first[:400])
+
+
 class Check:
     def __init__(self, pid: str, tier: str, seed: int, props_module: str | None = None):
         self.pid, self.tier, self.seed = pid, tier, seed
